@@ -240,6 +240,37 @@ theorem bytesOf_uint_length (w v : Nat) : (bytesOf (.uint w v)).length = w := by
 theorem bytesOf_sint_length (w : Nat) (v : Int) : (bytesOf (.sint w v)).length = w := by
   simp [bytesOf]
 
+/-- Once something is recorded, every further validation returns `Ok` and changes nothing. -/
+theorem sticky_history (H : Hash) (P : List Nat) (hs : List VStep) (st : Seeded) (r : Recorded)
+    (hr : st.recorded = some r) :
+    (runHistory H P hs st).2 = st ∧ (runHistory H P hs st).1 = List.replicate hs.length .ok := by
+  induction hs with
+  | nil => simp [runHistory]
+  | cons s rest ih =>
+    have hs : applyStep H P s st = (.ok, st) := by
+      cases s with
+      | seeds S => simp [applyStep, validateSeeds, hr]
+      | bump S b => simp [applyStep, validateWithBump, hr]
+    simp only [runHistory, hs, ih.1, ih.2, List.length_cons, List.replicate_succ, and_self]
+
+theorem compBytes_singleton (v : FieldVal) : compBytes [v] = bytesOf v := by
+  simp [compBytes]
+
+theorem compBytes_nil : compBytes [] = [] := rfl
+
+/-- If `create` succeeds WITH the empty slot in place, it succeeds with the same address without it
+(the success itself shows that there was room for the extra slot). -/
+theorem create_empty_slot_ok (H : Hash) (us : List (List Nat)) (b : Nat) (P k : List Nat)
+    (h : create H (us ++ [[]] ++ [[b]]) P = .ok k) : create H (us ++ [[b]]) P = .ok k := by
+  have hl := ((create_ok_iff H _ P k).1 h).1
+  rw [limitsOk_iff] at hl
+  have hn : us.length + 2 ≤ 16 := by
+    have := hl.1
+    simp at this
+    omega
+  rw [← create_empty_slot H us b P hn]
+  exact h
+
 theorem userSeeds_length (S : SeedStruct) :
     (userSeeds S).length = S.const.toList.length + S.fields.length := by
   simp [userSeeds]
